@@ -88,6 +88,7 @@ type exec struct {
 	trace        []string
 	dead         bool
 	abortDone    bool
+	noAnswer     bool // SMPSecretNeeded is not answered (the user has not typed the secret yet)
 	withQuestion bool
 	pieces       int
 	pieceCap     int // guard against message storms (0 = unlimited)
@@ -398,11 +399,51 @@ type recvResult struct {
 	stack    string
 }
 
+// protectedReceive calls Receive the way a caller that owns its buffers does: the input is a
+// private copy (exact capacity) that is overwritten as soon as Receive has returned, and the
+// returned plaintext and reply slices are copied out and then overwritten as well. Whatever the
+// Conversation needs later (fragment store, saved SMP message, keys) must not live in them.
 func protectedReceive(c *otr.Conversation, in []byte) (r recvResult) {
+	priv := append(make([]byte, 0, len(in)), in...)
 	r.panicked, r.pval, r.stack = vf.Protect(func() {
-		r.out, r.enc, r.change, r.toSend, r.err = c.Receive(in)
+		out, enc, change, toSend, err := c.Receive(priv)
+		r.out, r.toSend = cloneBytes(out), cloneAll(toSend)
+		r.enc, r.change, r.err = enc, change, err
+		clobberAll(toSend)
+		clobber(out)
 	})
+	clobber(priv)
 	return
+}
+
+func clobber(b []byte) {
+	for i := range b {
+		b[i] ^= 0xFF
+	}
+}
+
+func clobberAll(bs [][]byte) {
+	for _, b := range bs {
+		clobber(b)
+	}
+}
+
+func cloneBytes(b []byte) []byte {
+	if b == nil {
+		return nil
+	}
+	return append(make([]byte, 0, len(b)), b...)
+}
+
+func cloneAll(bs [][]byte) [][]byte {
+	if bs == nil {
+		return nil
+	}
+	out := make([][]byte, len(bs))
+	for i, b := range bs {
+		out[i] = cloneBytes(b)
+	}
+	return out
 }
 
 // otrFrames names the innermost frames of package otr on a panic stack.
@@ -611,7 +652,9 @@ func (e *exec) deliver(m *lmsg, piece []byte) {
 				e.fail("SMPQuestion differs from the question given to Authenticate", map[string]any{"got": got, "want": want})
 			}
 		}
-		e.authenticate(m.to, "", "answer")
+		if !e.noAnswer {
+			e.authenticate(m.to, "", "answer")
+		}
 	}
 	if m.phase == phSMP && m.genuine {
 		if e.abort == 2 && m.to == 0 && len(r.toSend) > 0 && !e.abortDone {
